@@ -12,7 +12,7 @@ use serde::{Deserialize, Serialize};
 use std::path::Path;
 
 pub const NAMES: [&str; 6] = ["LvA", "LvAB", "_lvx", "lv.1", "élv1", "LvZ9"];
-const VALUES: [&str; 10] = ["val", "", "{", "}", "ENV{LvAB}", "LvAB}", "sub/dir", "ü", "x y", "ENV{LvA}{"];
+const VALUES: [&str; 12] = ["val", "", "{", "}", "ENV{LvAB}", "LvAB}", "sub/dir", "ü", "x y", "ENV{LvA}{", "/abs/x", "/"];
 const LITERALS: [&str; 14] = ["a", "log", "é", " ", "-", ".", "_", "$", "{", "}", "$ENV", "$ENV{", "ENV{", "$$"];
 const MALFORMED: [&str; 10] = ["$ENV{}", "$ENV{.a}", "$ENV{-a}", "$ENV{$ENV{LvA}}", "$ENV{Lv-A}", "$ENV{Lv A}", "$ENV{Lv$A}", "$ENV{LvA", "$ENV{LvA/x}", "$ENV{ }"];
 
@@ -125,6 +125,7 @@ fn safe_token() -> impl Strategy<Value = String> {
         6 => prop::sample::select(NAMES.to_vec()).prop_map(|n| format!("$ENV{{{}}}", n)),
         2 => prop::sample::select(vec!["$ENV{}", "$ENV{.a}", "$ENV{Lv-A}", "$ENV{LvA", "$ENV{$ENV{LvA}}", "$ENV"]).prop_map(|s| s.to_string()),
         1 => Just("/d".to_string()),
+        2 => Just("/".to_string()),
     ]
 }
 
@@ -137,8 +138,19 @@ fn fs_safe(p: &str) -> bool {
         && p.len() <= 200
         && !p.contains('\0')
         && !p.ends_with('/')
-        && p.split('/').all(|c| c != "." && c != ".." )
-        && !p.contains("//")
+        && p.split('/').all(|c| c != "." && c != "..")
+}
+
+/// POSIX path resolution collapses repeated slashes
+fn collapse(p: &str) -> String {
+    let mut out = String::new();
+    for c in p.chars() {
+        if c == '/' && out.ends_with('/') {
+            continue;
+        }
+        out.push(c);
+    }
+    out
 }
 
 pub fn check_e2e(tmp: &Path, case: &Case, obs: &mut Obs) -> CaseResult {
@@ -193,6 +205,7 @@ pub fn check_e2e(tmp: &Path, case: &Case, obs: &mut Obs) -> CaseResult {
         }
         let files: Vec<&String> = s.files.keys().collect();
         obs.sub_evals += 1;
+        let want_file = collapse(&want_file);
         ensure!(
             files == vec![&want_file],
             if files.iter().any(|f| f.len() != want_file.len()) { "C19:rescan" } else { "C19:wrong-location" },
